@@ -119,8 +119,12 @@ func (s *scheduler) park(proc string) {
 // versionOf identifies the plan version a swap installed from the public key the hook reports.
 func (s *scheduler) versionOf(kv []any) int {
 	name := ""
-	if pub, ok := kvOf(kv, "pub").(crypto.PublicKey); ok {
+	if pub, ok := kvOf(kv, "pub").(crypto.PublicKey); ok && pub != nil {
 		name = s.env.Fx.NameOf(pub)
+	} else if key, ok := kvOf(kv, "key").(crypto.Signer); ok {
+		// the hook passes the private key as is (no call at the hook site); its public half is
+		// taken here
+		name = s.env.Fx.NameOf(key.Public())
 	}
 
 	kid, _ := kvOf(kv, "kid").(string)
@@ -295,4 +299,3 @@ func replayExact(env *Env, s Schedule, widx []int) error {
 
 	return nil
 }
-
